@@ -474,7 +474,6 @@ func ttlsOf(m *dns.Msg) (ttls []uint32) {
 	return ttls
 }
 
-
 func stripOPT(m *dns.Msg) {
 	if m == nil {
 		return
@@ -612,7 +611,6 @@ func c07ThroughServers(s *kernel.Sim, w *world.World, srv *agd.Server, streams [
 	wg.Wait()
 	s.Probe("streams-through-real-servers")
 }
-
 
 // addECS gives the request a client-subnet option.
 func addECS(req *dns.Msg, ecs string) {
